@@ -102,6 +102,37 @@ func Episode(r *rng.R, mode string) []string {
 	n := 6 + r.Intn(30)
 	for i := 0; i < n; i++ {
 		ln := lnames[r.Intn(len(lnames))]
+		if r.Chance(1, 4) {
+			// strike: a big chunk, a short advance that leaves it held inside the chain
+			// (asleep in latency, between two bandwidth instalments or slicer pieces, queued),
+			// then a reconfiguration right away
+			ops = append(ops, fmt.Sprintf("src %s %d", ln, r.Pick(64, 150, 250, 350, 1000, 2500)))
+			if r.Chance(1, 2) {
+				ops = append(ops, fmt.Sprintf("src %s %d", ln, r.Pick(1, 64, 250)))
+			}
+			ops = append(ops, fmt.Sprintf("adv %d", []int64{0, 1, MS, 7 * MS, 50 * MS, 100 * MS, 150 * MS, 250 * MS, 1000 * MS}[r.Intn(9)]))
+			switch r.Intn(4) {
+			case 0:
+				ops = append(ops, addOp(dirs[ln]))
+			case 1:
+				nme := existing()
+				ops = append(ops, "del "+nme)
+				remove(nme)
+			case 2:
+				nme := existing()
+				g, ok := present[nme]
+				if !ok {
+					g = pool[r.Intn(len(pool))]
+				}
+				a1, a2, a3 := g.gen(r)
+				ops = append(ops, fmt.Sprintf("upd %s %s %d %d %d %s", nme, g.ty, a1, a2, a3, []string{"1", "1", "0"}[r.Intn(3)]))
+			default:
+				ops = append(ops, "reset")
+				present = map[string]tgen{}
+				order = nil
+			}
+			continue
+		}
 		switch x := r.Intn(24); {
 		case x < 7:
 			ops = append(ops, fmt.Sprintf("src %s %d", ln, r.Pick(1, 1, 2, 3, 5, 8, 10, 64, 201, 1000)))
@@ -149,6 +180,12 @@ func Episode(r *rng.R, mode string) []string {
 		ops = append(ops, "sink "+ln+" 1")
 	}
 	ops = append(ops, "adv 30000000000")
+	// probe: the same traffic through the oldest link and through a link started now
+	ops = append(ops, "adv 600000000000", "newlink z "+dirs["a"], "mark")
+	for _, n := range []int{5, 64, 201} {
+		ops = append(ops, fmt.Sprintf("src a %d", n), fmt.Sprintf("src z %d", n), "adv 7000000")
+	}
+	ops = append(ops, "adv 900000000000", "probecheck a z")
 	return ops
 }
 
